@@ -38,7 +38,7 @@ def round4(e):
 
 class C19(vlib.Check):
     id = "C19"
-    props_modules = ["E3fpVerif.Props.C19"]
+    props_modules = ["E3fpVerif.Props.C19", "E3fpVerif.Props.C19Smiles"]
     gen_items = ["sdf_io"]
     rule = ("molecules with 1..12 conformers (shipped SDFs / embedded SMILES), with or without stored energies (4-decimal and "
             "full-precision values), sequential and non-sequential conformer ids, an own `Energy` property or not; three "
@@ -61,8 +61,12 @@ class C19(vlib.Check):
         rng = self.rng
         n = 80 if self.tier == "quick" else 1500
         refs = MG.all_refs()
+        # molecules whose hydrogens are implicit (as mol_from_sdf returns them) and carry information the mol block must keep:
+        # aromatic N-H (pyrrole, indole, imidazole, pyrazolone), charged aromatic N, N-oxide
+        implicit = [{"smiles": s_, "nconf": 2, "seed": 7, "hs": False} for s_ in
+                    ("c1cc[nH]c1", "c1ccc2[nH]ccc2c1", "NCCc1c[nH]cn1", "Cc1cc(=O)[nH][nH]1", "C[n+]1ccccc1", "[O-][n+]1ccccc1", "c1ccoc1", "Cn1cnc2c1c(=O)n(C)c(=O)n2C")]
         for _ in range(n):
-            ref = rng.choice(refs)
+            ref = rng.choice(implicit) if rng.random() < 0.15 else rng.choice(refs)
             nconf = rng.choice([1, 2, 3, 5, 12])
             energies = None
             if rng.random() < 0.7:
@@ -78,10 +82,24 @@ class C19(vlib.Check):
             yield case
         for _ in range(n // 4):
             k = rng.randint(1, 8)
-            names = rng.sample(["a", "b", "mol_1", "CHEMBL25", "é", "x-1", "Z", "q.r", "n7"], k)
-            table = {nm: rng.choice(["CCO", "c1ccccc1", "CC(=O)O", "C[C@H](N)C(=O)O", "[Na+].[Cl-]", "C/C=C/C"]) for nm in names}
+            names = rng.sample(["a", "b", "mol_1", "CHEMBL25", "é", "x-1", "Z", "q.r", "n7", "3'-deoxyadenosine", 'say"x"', "a\\b", "p#1", "$v", "(R)-x"], k)
+            table = {nm: rng.choice(["CCO", "c1ccccc1", "CC(=O)O", "C[C@H](N)C(=O)O", "[Na+].[Cl-]", "C/C=C/C", "F/C=C\\F", "C(/F)=C/F",
+                                     "Cl\\C=C\\Cl", "C#N", "[13CH4]", "C%10CCCCC%10"]) for nm in names}
             self.count("smiles-table")
             yield {"t": "smi", "table": table, "ext": rng.choice([".smi", ".smi.gz", ".smi.bz2"])}
+            # hand-written SMILES files as they occur: tabs and runs of blanks, extra columns, short and empty lines, repeated
+            # names and repeated SMILES, a header line; read with every option of smiles_to_dict
+            toks = ["CCO", "c1ccccc1", "CC(=O)O", "N", "C/C=C/C"]
+            nms = ["a", "b", "a", "mol_1", "x-1", "é"]
+            lines = []
+            for _k in range(rng.randint(0, 7)):
+                kind = rng.choice(["ok", "ok", "ok", "tab", "multi", "extra", "short", "empty", "lead"])
+                sm, nm = rng.choice(toks), rng.choice(nms)
+                lines.append({"ok": "%s %s" % (sm, nm), "tab": "%s\t%s" % (sm, nm), "multi": "%s   %s  " % (sm, nm),
+                              "extra": "%s %s 12.5 note" % (sm, nm), "short": sm, "empty": "", "lead": "  %s %s" % (sm, nm)}[kind])
+            self.count("smiles-file-raw")
+            yield {"t": "smiraw", "lines": lines, "unique": rng.random() < 0.4, "has_header": rng.random() < 0.3 and len(lines) > 0,
+                   "ext": rng.choice([".smi", ".smi.gz"]), "crlf": rng.random() < 0.2}
 
     # ------------------------------------------------------------------
     def _mol(self, case):
@@ -123,9 +141,33 @@ class C19(vlib.Check):
         w = n if case["wlim"] in (None, -1) else min(case["wlim"], n)
         return w if case["rlim"] is None else min(w, case["rlim"])
 
+    def _smi_io(self, case):
+        import smart_open
+        path = os.path.join(self.tmp(), "s%d%s" % (id(case) % 99999, case["ext"]))
+        try:
+            if case["t"] == "smi":
+                CU.dict_to_smiles(path, case["table"])
+                with smart_open.open(path, "r") as f:
+                    lines = f.read().split("\n")
+                if lines and lines[-1] == "":
+                    lines = lines[:-1]
+                back = CU.smiles_to_dict(path)
+                return {"lines": lines, "back": sorted([k, v] for k, v in back.items())}
+            with smart_open.open(path, "w", newline="") as f:
+                for ln in case["lines"]:
+                    f.write(ln + ("\r\n" if case["crlf"] else "\n"))
+            try:
+                back = CU.smiles_to_dict(path, unique=case["unique"], has_header=case["has_header"])
+            except StopIteration:
+                return {"back": "StopIteration"}        # has_header on a file without any record
+            return {"back": sorted([k, v] for k, v in back.items())}
+        finally:
+            if os.path.exists(path):
+                os.remove(path)
+
     def impl(self, case):
-        if case["t"] == "smi":
-            return {"ok": "see prop"}
+        if case["t"] in ("smi", "smiraw"):
+            return attempt(lambda: self._smi_io(case))
 
         def go():
             m = self._mol(case)
@@ -136,13 +178,23 @@ class C19(vlib.Check):
 
     def model_ops(self, case):
         if case["t"] == "smi":
-            return [{"op": "fpr.hash", "words": []}]
+            return [{"op": "sdf.smiles_table", "table": sorted([k, v] for k, v in case["table"].items())[::-1]}]
+        if case["t"] == "smiraw":
+            return [{"op": "sdf.smiles_table", "lines": case["lines"], "unique": case["unique"], "has_header": case["has_header"]}]
         return [{"op": "sdf.roundtrip", "nconf": case["nconf"], "energies": None if case["energies"] is None else [str(Fraction(repr(e))) for e in case["energies"]],
                  "wlim": case["wlim"], "rlim": case["rlim"]}]
 
     def model_answer(self, case, answers):
         if case["t"] == "smi":
-            return {"ok": "see prop"}
+            a = answers[0]
+            return {"ok": {"lines": a["ok"]["lines"], "back": sorted(a["ok"]["back"])}} if "ok" in a else a
+        if case["t"] == "smiraw":
+            a = answers[0]
+            if "ok" not in a:
+                return a
+            if case["has_header"] and not any(len(ln.split()) >= 2 for ln in case["lines"]):
+                return {"ok": {"back": "StopIteration"}}      # next() on the exhausted generator: Python's own error, not modelled
+            return {"ok": {"back": sorted(a["ok"])}}
         a = answers[0]
         if "ok" not in a:
             return a
@@ -154,6 +206,8 @@ class C19(vlib.Check):
 
     # ------------------------------------------------------------------ property
     def prop(self, case):
+        if case["t"] == "smiraw":
+            return None
         if case["t"] == "smi":
             path = os.path.join(self.tmp(), "t%d%s" % (id(case) % 99999, case["ext"]))
             try:
@@ -209,6 +263,8 @@ class C19(vlib.Check):
     def nontrivial(self, case, a_impl):
         if case["t"] == "smi":
             return vlib.canon(case) if len(case["table"]) >= 2 else None
+        if case["t"] == "smiraw":
+            return vlib.canon(case) if len(case["lines"]) >= 2 else None
         if "ok" in a_impl and isinstance(a_impl["ok"], dict) and a_impl["ok"]["n"] >= 2:
             return vlib.canon(case)
         return None
